@@ -108,14 +108,19 @@ func (r *Decoder) Next() bool {
 
 	QUAD_START:
 
-		subject, subjectRange, err := r.captureSubjectOrGraphValue(grammar.R_subject)
-		if err != nil {
+		// only an end of input before the first rune of a statement is a clean end
+		if err := r.skipToStatement(); err != nil {
 			if errors.Is(err, io.EOF) {
 				r.currentQuad = rdf.Quad{}
 
 				return nil
 			}
 
+			return grammar.R_nquadsDoc.Err(r.newOffsetError(err, cursorio.DecodedRunes{}, cursorio.DecodedRunes{}))
+		}
+
+		subject, subjectRange, err := r.captureSubjectOrGraphValue(grammar.R_subject)
+		if err != nil {
 			return grammar.R_statement.Err(err)
 		}
 
